@@ -490,6 +490,64 @@ func CondFamily() []*Program {
 	return out
 }
 
+// OrderFamily enumerates evaluation-order scenarios: two or three operands, each a call
+// of a printing helper that cannot suspend, a trace point (can suspend in the resumable
+// build) or a call of a closure (a function value), in every order, as call arguments,
+// as operands of a binary operator, of a comparison in an if condition, and as switch
+// tag versus case expression.
+func OrderFamily() []*Program {
+	var out []*Program
+	kinds := []string{"helper", "trace", "closure"}
+	operand := func(kind string, n int, site func() int) N {
+		switch kind {
+		case "helper":
+			return N{"call", "h0", []any{[]any(N{"lit", n})}}
+		case "trace":
+			return N{"tr", site(), N{"lit", n}}
+		default:
+			return N{"callv", "c0"}
+		}
+	}
+	h0 := func() *Func {
+		return &Func{Name: "h0", Params: []string{"a0"}, Body: []N{{"emit", 90, N{"var", "a0"}}, {"return", N{"add", N{"var", "a0"}, N{"lit", 1}}}}}
+	}
+	h1 := func() *Func {
+		return &Func{Name: "h1", Params: []string{"a0", "a1", "a2"}, Body: []N{{"return", N{"add", N{"mul", N{"var", "a0"}, N{"lit", 2}}, N{"sub", N{"var", "a1"}, N{"var", "a2"}}}}}}
+	}
+	for _, k1 := range kinds {
+		for _, k2 := range kinds {
+			for _, k3 := range kinds {
+				for ctx := 0; ctx < 5; ctx++ {
+					k := 0
+					site := func() int { k++; return k }
+					clo := N{"closure", "c0", nodes([]N{{"addto", "x", N{"lit", 1}}, {"return", N{"tr", site(), N{"var", "x"}}}})}
+					a, b, c := operand(k1, 1, site), operand(k2, 2, site), operand(k3, 3, site)
+					var body []N
+					switch ctx {
+					case 0: // call arguments
+						body = []N{{"emit", site(), N{"call", "h1", []any{[]any(a), []any(b), []any(c)}}}}
+					case 1: // binary operators
+						body = []N{{"emit", site(), N{"sub", N{"add", []any(a), []any(b)}, []any(c)}}}
+					case 2: // comparison in a condition, third operand in the branch
+						body = []N{{"if", N{"lt", []any(a), []any(b)}, nodes([]N{{"emit", site(), []any(c)}}), nodes([]N{{"emit", site(), N{"lit", 0}}})}}
+					case 3: // assignment then use
+						body = []N{{"assign", "y", N{"mul", N{"add", []any(a), []any(b)}, N{"lit", 2}}}, {"emit", site(), N{"add", N{"var", "y"}, []any(c)}}}
+					case 4: // switch tag and case expressions
+						cls := []any{[]any{false, []any{[]any(b), []any(c)}, nodes([]N{{"emit", site(), N{"lit", 1}}}), false},
+							[]any{true, []any{}, nodes([]N{{"emit", site(), N{"lit", 0}}}), false}}
+						body = []N{{"switch", true, []any(a), cls, ""}}
+					}
+					body = append([]N{clo}, body...)
+					body = append(body, N{"return", N{"var", "x"}})
+					f := &Func{Name: "f0", Locals: []string{"x", "y"}, Body: body}
+					out = append(out, &Program{Funcs: []*Func{f, h0(), h1()}, Tag: "order-family"})
+				}
+			}
+		}
+	}
+	return out
+}
+
 // LoopFamily enumerates loop/jump shapes: nested loops with every combination of
 // labelled/unlabelled break/continue at an input-controlled point, with trace
 // points in condition and post statement.
